@@ -603,6 +603,12 @@ fn projections(gv: &GraphView, run: &crate::trisim::RunResult, o: usize, acc: &m
                         let bit = b.get(e / 8).map(|x| (x >> (e % 8)) & 1).unwrap_or(0);
                         acc.entry((i, e)).or_insert_with(|| vec![0; 256])[bit as usize] += 1;
                     } else if let Some(x) = b.get(e * bl) {
+                        if e == 1 {
+                            // difference of the first two entries of one value (low byte): a mask that is shared by the
+                            // entries of an array cancels here and leaves the difference of the secrets
+                            let d = x.wrapping_sub(b[0]);
+                            acc.entry((i, 2000)).or_insert_with(|| vec![0; 256])[d as usize] += 1;
+                        }
                         acc.entry((i, e)).or_insert_with(|| vec![0; 256])[*x as usize] += 1;
                         // high byte too
                         if bl > 1 {
@@ -1290,6 +1296,11 @@ pub fn gen_sampled(rng: &mut Rng, heavy: bool) -> Option<(Case, Vec<Value>)> {
             if !st.is_signed() && rng.chance(1, 2) {
                 return None;
             }
+            // truncation of an ARRAY (its per-entry masks must be independent)
+            let t2 = array_type(vec![2], st);
+            steps[0] = Step { op: Operation::Input(t2.clone()), deps: vec![], gdeps: vec![] };
+            steps[1] = Step { op: Operation::Input(t2.clone()), deps: vec![], gdeps: vec![] };
+            in_types = vec![t2.clone(), t2];
             steps.push(Step { op: Operation::Add, deps: vec![0, 1], gdeps: vec![] });
             steps.push(Step { op: Operation::Truncate(1 << (1 + rng.below(3))), deps: vec![2], gdeps: vec![] });
         }
